@@ -83,6 +83,7 @@ const (
 	varHandleCalls
 	varDivCalls
 	varRunning // running Handle calls
+	varSink = 63
 )
 
 type pitem struct {
@@ -947,9 +948,24 @@ func buildPrio(sc *PrioSc) (simrt.Config, func()) {
 		handlerFor := func(ordinal int64) PHandler { return sc.Handlers[int(ordinal)%len(sc.Handlers)] }
 		resumeShared := make(chan struct{}, 4096)
 
+		// Plain user data written by Handle and read by whoever waited for the discipline
+		// to terminate (the usual "collect the results after GracefulStop" pattern): the
+		// race build sees a report if termination is announced while Handle still runs.
+		results := make([]int, 8192)
+
+		readResults := func() {
+			sum := 0
+			for _, x := range results {
+				sum += x
+			}
+
+			simrt.AddVar(varSink, int64(sum)) // keeps the reads alive without sharing a plain variable
+		}
+
 		// the Handle callback of the simplified disciplines
 		handle := func(hctx context.Context, item int) {
 			n := simrt.AddVar(varHandleCalls, 1)
+			results[int(n)%len(results)] = item
 			simrt.AddVar(varRunning, 1)
 			simrt.Note("handle-enter", int64(item), simrt.GetVar(varRunning))
 
@@ -970,6 +986,7 @@ func buildPrio(sc *PrioSc) (simrt.Config, func()) {
 				}
 			}
 
+			results[int(n)%len(results)] = -item
 			simrt.AddVar(varRunning, -1)
 			simrt.Note("handle-exit", int64(item), 0)
 		}
@@ -1074,6 +1091,11 @@ func buildPrio(sc *PrioSc) (simrt.Config, func()) {
 			}
 
 			simrt.Note("err-closed", 0, 0)
+
+			if !sc.plain() {
+				readResults()
+			}
+
 			simrt.Close("env:err", done)
 		})
 
@@ -1274,6 +1296,10 @@ func buildPrio(sc *PrioSc) (simrt.Config, func()) {
 						simrt.Note("stop-call", 0, 0)
 						h.stop()
 						simrt.Note("stop-returned", 0, 0)
+
+						if !sc.plain() {
+							readResults()
+						}
 					}
 				case "stop2":
 					// a second caller of Stop, concurrent with whatever the first one does
@@ -1293,6 +1319,10 @@ func buildPrio(sc *PrioSc) (simrt.Config, func()) {
 							simrt.Note("graceful-call", 0, 0)
 							h.graceful()
 							simrt.Note("graceful-returned", 0, 0)
+
+							if !sc.plain() {
+								readResults()
+							}
 						})
 					}
 				case "add":
